@@ -79,6 +79,7 @@ def run_check(pid, tier, seed, plan=None):
     traces = validate.record_all(jobs)
     t_rec = time.time() - tt
     byid = {j["id"]: j for j in jobs}
+    assert len(byid) == len(jobs), "job ids collide"
     for tr in traces:
         j = byid[tr["id"]]
         tr["kind"], tr["root"], tr["ops"], tr["job"] = j.get("kind", ""), j.get("root", "?"), j["ops"], j
